@@ -35,7 +35,7 @@ PATHS_HOST = ["host", "host_native", "frozen_host", "can_fill", "can_fill_native
 
 # (family cfg, number of slices, simulate behaviours per slice or None)
 FAMILIES = {
-    "quick": [("small", 12, None), ("wide2", 6, None), ("sim", 4, 6000)],
+    "quick": [("small", 9, None), ("wide2", 5, None), ("sim", 2, 10000)],
     "thorough": [("small4", 42, None), ("extra2", 21, None), ("wide3", 21, None), ("simbig", 14, 17000)],
 }
 
@@ -153,7 +153,8 @@ def run(tier):
     for fam, nparts, sim in fams:
         for part in range(nparts):
             jobs.append((fam, part, nparts, sim))
-    workers = max(2, min(14, (os.cpu_count() or 4) * 3 // 4))
+    # one TLC + one harness process per job; TLC mostly waits on the pipe, so one job per core
+    workers = max(2, min(16, os.cpu_count() or 4))
     results = []
     with concurrent.futures.ThreadPoolExecutor(max_workers=workers) as ex:
         futs = [ex.submit(_job, fam, part, nparts, sim, wd, vh) for fam, part, nparts, sim in jobs]
